@@ -55,10 +55,76 @@ NEEDS = {
     'C17-1': 'a conforming archive with a chunk stored compressed and larger than its source size',
     'C17-2': 'HTTP transport and a descending / permuted chunk layout',
     'C17-3': 'a conforming zero-chunk archive (empty source)',
+    # ---- second round (agents were given the first round's ideas as "already taken")
+    'C01-4': 'a chunk larger than 2 MiB written to a real file: write_all replaced by write, count added to a total',
+    'C01-5': '-i naming a FIFO / pipe / device: input limited to metadata().len() = 0',
+    'C01-6': 'a repeated chunk followed later by a new one: dedup index taken from the order vector length',
+    'C02-4': 'an archive with --hash-length < 64 and a seed: feed looks up with contains/offsets/remove that normalise keys differently',
+    'C02-5': 'a last written chunk under 8 KiB: output wrapped in BufWriter, into_inner() drops the buffer',
+    'C02-6': '--seed-output with a moved chunk larger than 2 MiB: read_exact replaced by read in a merged helper',
+    'C03-4': 'a small reusable chunk landing deep inside the old place of a bigger chunk: overlap query gets a lower bound',
+    'C03-5': 'a chunk over 1 MiB moving up by less than its size: copied in ascending 1 MiB pieces over itself',
+    'C03-6': 'prior output longer than the source with a reusable chunk straddling the new end',
+    'C04-4': 'a local archive and a --verify-header pin that does not match: check made conditional on remote archives',
+    'C04-5': 'a local archive truncated exactly at a chunk boundary: zero-byte read at chunk start ends the stream',
+    'C04-6': 'a persistently hash-mismatching chunk: re-fetch loop with an always-true guard swallows the last failure',
+    'C05-4': 'a chunk larger than 2 MiB (same change as C01-4, written independently)',
+    'C05-5': 'a crash during the very first write: non-empty output sharing no chunk is refused on every re-run',
+    'C05-6': 'a reorder cycle between differently sized chunks: StoreInMem carries the size of the wrong chunk',
+    'C06-4': 'a BuzHash archive with a seed: Buzhash arm returns Config::RollSum',
+    'C06-5': 'a block device output with --seed-output: scan skipped when metadata().len() == 0',
+    'C06-6': 'a source with the same chunk at non-adjacent positions: fetch list walks source_order, dedup only adjacent',
+    'C08-4': 'a body fragment exactly as long as the awaited chunk while a prefix is buffered',
+    'C08-5': 'a connection cut mid-body: is_transient() does not cover the decode error reqwest reports',
+    'C08-6': 'a prior read through the same reader, then a range list starting at offset 0: seek skipped',
+    'C09-1': 'BuzHash and a run of >= window equal bytes preceded by a different byte',
+    'C09-2': 'min > window + 1 and a chunk candidate starting near the end of buffered data',
+    'C09-3': 'RollSum with min_chunk_size <= window_size and a first boundary inside the first window',
+    'C11-4': 'source piped through stdin with hash length != buffer count: swapped arguments at one call site',
+    'C11-5': 'a stored chunk larger than 2 MiB in the library writer: write instead of write_all, offset advanced by the count',
+    'C11-6': 'a non-UTF-8 metadata value printed through from_utf8_lossy',
+    'C12-4': '>= 2 chunks in flight: source checksum digested inside the parallel hashing tasks',
+    'C12-5': '>= 2 metadata entries: dictionary metadata becomes a HashMap',
+    'C12-6': '--compression none, a repeated chunk, file vs pipe delivery: temp file preallocated to the input size',
+    'C13-4': 'a prior output with a repeated chunk whose non-first occurrence is in place: scan index skips duplicates',
+    'C13-5': 'a chunk larger than 2 MiB (same change as C01-4, written independently)',
+    'C13-6': 'an in-place update that grows across the old end: off-by-one in a planner shortcut',
+    'C14-4': 'a refusal (invalid archive / pin mismatch) with an output that does not exist yet: open moved before the checks',
+    'C14-5': 'the existing output also named as --seed, no -f / --seed-output: seed_output derived from the seed list',
+    'C14-6': 'a crafted archive with window 0 / max chunk size 0: validation split into clauses that lose the zero tests',
+    'C15-4': 'a checksum-valid dictionary with a checksum longer than 64 bytes: HashSum length stored unclamped',
+    'C15-5': 'a server announcing a huge Content-Length: allocation sized by the header',
+    'C15-6': 'an archive declaring a max chunk size above 1 GiB: derived buffered(0) never polls',
+    'C16-4': 'an empty input: temp file removal moved into a helper that is skipped for empty sources',
+    'C16-5': '--force-create onto an output that cannot be opened for writing: removed and re-created',
+    'C16-6': '-vv: the logger gets a second sink, a file in the working directory',
+    'C17-4': 'a conforming archive with chunks stored in non-ascending order: read list sorted, descriptors not',
+    'C17-5': 'a hash length below 64: verification digests with variable-length BLAKE2b',
+    'C17-6': 'a local archive with padding / slack: refused because its size differs from header + chunk data',
 }
 WHY_MISSED = {
     'C03-2': 'not decided by design: correctness of the DFS reorder planner (graph algorithm over runtime data)',
     'C13-2': 'not decided by design: the arithmetic of strip_chunks_already_in_place (a merge over runtime offset lists)',
+    'C03-4': 'not decided by design: the overlap query of the reorder planner (arithmetic over runtime layouts)',
+    'C03-6': 'not decided by design: the reorder planner',
+    'C05-6': 'not decided by design: the reorder planner (which size a StoreInMem carries)',
+    'C13-6': 'not decided by design: the reorder planner',
+    'C09-1': 'not decided by design: rolling hash arithmetic (only the tiling clause of C09 is claimed)',
+    'C09-2': 'not decided by design: where boundaries fall / read independence (only the tiling clause of C09 is claimed)',
+    'C09-3': 'not decided by design: where boundaries fall (only the tiling clause of C09 is claimed)',
+    'C01-5': 'no rule: a new limit on the compress input derived from file metadata',
+    'C01-6': 'no rule yet: the index recorded for a new unique chunk must count unique chunks',
+    'C03-5': 'no rule: an executor that copies a chunk piecewise over itself (needs the overlap semantics of the plan)',
+    'C04-6': 'no rule: a new retry feature whose guard is always true (the error is examined by a predicate, then only logged)',
+    'C05-5': 'no rule: a new refusal that makes re-runs fail (behavioural)',
+    'C08-4': 'no rule: a fast path missing a precondition on buffered bytes (value reasoning)',
+    'C08-5': 'no rule: which error kinds count as transient (semantics of a dependency)',
+    'C08-6': 'no rule: seek skipped on a tracked position with a wrong initial value (value reasoning)',
+    'C11-6': 'no rule: lossy text conversion of a reported value',
+    'C12-6': 'reported under C16 only (set_len on the temp file is a new file-system effect); no determinism rule sees it',
+    'C13-4': 'no rule: the scan index must record every occurrence',
+    'C15-6': 'no rule: a validated (non-zero) but huge value makes a derived concurrency zero (range reasoning beyond A4)',
+    'C17-6': 'no rule: a new refusal based on the file size (behavioural)',
 }
 
 
